@@ -237,6 +237,14 @@ func wireCmd(args []string) int {
 			}
 		}
 	}
+	// ... and every (channel, class) received by a peer that already holds entries of the database (handlers may treat
+	// heads differently once the log is not empty)
+	for _, ch := range []string{"topic", "direct"} {
+		for _, cls := range in.Classes {
+			behaviours = append(behaviours, Behaviour{ID: fmt.Sprintf("after-valid/%s/%s", ch, cls), Steps: []Step{
+				{Action: "DeliverValid", Args: []interface{}{ch}}, {Action: "DeliverMalformed", Args: []interface{}{ch, cls}}, {Action: "DeliverValid", Args: []interface{}{ch}}}})
+		}
+	}
 	// a damaged copy of an announcement, several times, then the announcement itself: it must still be handled
 	for _, ch := range []string{"topic", "direct"} {
 		behaviours = append(behaviours, Behaviour{ID: "damaged-copy-then-real/" + ch, Steps: []Step{
